@@ -425,6 +425,13 @@ pub fn run<P: Property>(mut p: P) {
             }
             failure_sigs.insert(key);
             f.case = shrink_case(&mut p, case, &f, &mut drv);
+            if f.case != *case {
+                // describe the minimised case, not the one it was found on
+                let again = run_one(&mut p, &f.case, &mut drv);
+                if let Some(g) = again.failures.into_iter().find(|g| g.kind == f.kind && g.signature == f.signature) {
+                    f.detail = g.detail;
+                }
+            }
             failures.push(f);
         }
     }
